@@ -320,7 +320,8 @@ func (mw *msgWriter) getMultipartBoundary(msg *Msg, mimetype MIMEType) string {
 		// (prefixed, so that no boundary is the prefix of another one)
 		nested := string(mimetype) + "_" + msg.boundary
 		if len(nested) > 70 {
-			nested = nested[:70]
+			// a boundary must not end in a space (RFC 2046, section 5.1.1)
+			nested = strings.TrimRight(nested[:70], " ")
 		}
 		return nested
 	}
